@@ -101,6 +101,19 @@ CHECKS = {
         "and strict reader in vlib/refhttp.py.",
         "5/C05",
     ),
+    "C02": (
+        "exploration",
+        "round-trip property testing between two real aiohttp endpoints (ClientSession <-> web.Application) on in-memory "
+        "transports under a deterministic virtual-time loop: Hypothesis-generated request x response x segmentation "
+        "product, raw header comparison, keep-alive agreement and follow-up reuse",
+        "Each generated exchange must deliver to the handler exactly what the client issued and to the caller exactly "
+        "what the handler returned (empty-body rules applied), for independent segmentations of both directions; at "
+        "quiescence client and server must agree on whether the connection stays open and a follow-up request must "
+        "reuse it iff both kept it.",
+        "Trusts vlib/memnet.py and vlib/detloop.py; FileResponse goes through the AIOHTTP_NOSENDFILE fallback; TLS and "
+        "kernel sendfile are out of reach.",
+        "5/C02",
+    ),
 }
 
 REASON_PENDING = "check not built yet in this round (design in DESIGN.md section 5); not claimed until it runs quietly on the unchanged tree"
